@@ -66,6 +66,40 @@ pub fn replay(args: &HashMap<String, String>) {
     rep.write(outp);
 }
 
+/// R for Casts.tla: every (bytes, value) vector of MC_Casts goes through the real int_from_bytes; the u64 it returns
+/// must be the big-endian value of the input, which is what the model says (value = the input, leading zeros aside)
+pub fn replay_casts(args: &HashMap<String, String>) {
+    use chialisp::classic::clvm::__type_compatibility__::{Bytes, BytesFromType};
+    use chialisp::classic::clvm::casts::int_from_bytes;
+    let vectors = read_tlc_vectors(args.get("in").expect("--in"), "V");
+    let mut rep = Report::default();
+    for v in &vectors {
+        let bytes: Vec<u8> = v["bytes"].as_array().unwrap().iter().map(|b| b.as_u64().unwrap() as u8).collect();
+        let model: Vec<u8> = v["value"].as_array().unwrap().iter().map(|b| b.as_u64().unwrap() as u8).collect();
+        rep.evaluations += 1;
+        rep.nontrivial(&format!("{bytes:?}"));
+        // independent of the model: the big-endian value
+        let want = bytes.iter().fold(0u128, |a, b| (a << 8) | *b as u128);
+        let model_val = model.iter().fold(0u128, |a, b| (a << 8) | *b as u128);
+        if model_val != want {
+            rep.spec_error(json!({"bytes": bytes, "model_value": model, "big_endian_value": want.to_string()}));
+        }
+        let got = std::panic::catch_unwind(|| int_from_bytes(Bytes::new(Some(BytesFromType::Raw(bytes.clone()))), None));
+        match got {
+            Ok(Ok(g)) => {
+                if g as u128 != want {
+                    // a length prefix read as another number: the decoder takes a different number of bytes for the atom
+                    rep.violation(json!({"property": "C08", "kind": "length-prefix-read-as-other-number", "size_bytes": bytes, "int_from_bytes": g.to_string(), "value": want.to_string()}));
+                }
+            }
+            Ok(Err(_)) => rep.violation(json!({"property": "C08", "kind": "length-prefix-read-as-other-number", "size_bytes": bytes, "int_from_bytes": "error", "value": want.to_string()})),
+            Err(_) => rep.violation(json!({"property": "C08", "kind": "decoder-crash", "size_bytes": bytes})),
+        }
+    }
+    rep.traces = rep.evaluations;
+    rep.write(args.get("out").expect("--out"));
+}
+
 pub fn drive(args: &HashMap<String, String>) {
     use crate::gen_clvm::ClvmGen;
     use rand::{Rng, SeedableRng};
@@ -163,6 +197,34 @@ pub fn drive(args: &HashMap<String, String>) {
             inputs.push(b);
         }
     }
+    // length prefixes of 5 and 6 bytes in which every byte position of the size carries something in turn (sizes from
+    // 2^32 up to the format's limit and beyond, with a small low word), followed by 0..3 bytes: no decoder has that many
+    // bytes to read, whatever the width of the arithmetic the size goes through
+    for lead in [0xf8u8, 0xf9, 0xfa, 0xfb, 0xfc, 0xfd] {
+        let width = if lead >= 0xfc { 5 } else { 4 };
+        for hot in 0..=width {
+            for v in [1u8, 0x80, 0xff] {
+                for low in [0u8, 1, 2] {
+                    let mut size = vec![0u8; width];
+                    if hot < width {
+                        size[hot] = v;
+                    }
+                    size[width - 1] |= low;
+                    for tail in [&b""[..], &b"a"[..], &b"ab"[..], &b"abc"[..]] {
+                        let mut b = vec![lead];
+                        b.extend(&size);
+                        b.extend(tail);
+                        inputs.push(b.clone());
+                        let mut p = vec![0xff, 0x01];
+                        p.extend(&b);
+                        inputs.push(p);
+                    }
+                }
+            }
+        }
+    }
+    inputs.sort();
+    inputs.dedup();
     let djobs: Vec<Value> = inputs.iter().map(|b| json!({"op": "serde", "bytes": b})).collect();
     let cfg = PoolCfg { batch: 128, timeout: Duration::from_secs(20), ..PoolCfg::default() };
     let dres = run_jobs(djobs, &cfg);
